@@ -69,6 +69,14 @@ pub struct McNodeState {
     is_crashed: bool,
 }
 
+#[cfg(anysystem_verif)]
+impl McNodeState {
+    /// Verification hook: the crash flag of the node.
+    pub fn verif_is_crashed(&self) -> bool {
+        self.is_crashed
+    }
+}
+
 #[derive(Clone)]
 pub struct McNode {
     name: String,
